@@ -114,7 +114,7 @@ type netSim struct {
 	onDisconnect func(n *netNode, l *link, reason error)
 	// onSendError sees every error of a node's send step (e.g. a message refused as too long)
 	onSendError func(n *netNode, l *link, err error)
-	genesisHash  cipher.SHA256
+	genesisHash cipher.SHA256
 }
 
 func newNetSim(c *sim.Ctx, w *world) *netSim {
@@ -126,7 +126,7 @@ func newNetSim(c *sim.Ctx, w *world) *netSim {
 
 func (ns *netSim) drawKnobs(small bool) {
 	t := ns.c.T
-	minLen := uint64(4+4+ (4+8+8+8+32+32+32+4+65)) + uint64(ns.w.mcfg.MaxBlockSize) // one maximum-size block in a GIVB
+	minLen := uint64(4+4+(4+8+8+8+32+32+32+4+65)) + uint64(ns.w.mcfg.MaxBlockSize) // one maximum-size block in a GIVB
 	ns.knobs = netKnobs{maxOutgoingMsgLen: 256 * 1024, maxGetBlocksResp: 20, getBlocksRequestCnt: 20, ipCountsMax: 3, maxTxnAnnounce: 16}
 	if small {
 		ns.knobs.maxOutgoingMsgLen = []uint64{minLen, minLen + 1, minLen + 200, minLen * 2, 256 * 1024}[t.Pick("knob-max-out-len", 2, 1, 2, 2, 2)]
